@@ -2,8 +2,8 @@
    Only restatements; proofs are in C11/Proofs.v. Spec vocabulary: C11/Spec.v. *)
 From Coq Require Import List NArith ZArith Bool String Ascii Lia.
 From T4V Require Import Base.Str C11.Model C11.Spec C11.Proofs C11.LexProofs C11.LexSound C11.Layout C11.Pipeline C11.Sound C11.Complete C11.Loop C11.Card C11.Handover C11.EndToEnd C11.Regex.
-From T4V Require C11.Exec C11.RegexProofs C15.Model.
-From T4V Require Import C11.LinkC15.
+From T4V Require C11.Exec C11.RegexProofs C11.RegexBound6 C15.Model.
+From T4V Require Import C11.LinkC15 C11.NormalForm C11.PegProofs.
 Import ListNotations.
 Close Scope string_scope.
 Open Scope list_scope.
@@ -320,6 +320,67 @@ Theorem C11_get_ast2_eq_bounded : forall s : String.string, (String.length s <= 
 Proof. exact RegexProofs.get_ast2_eq_short. Qed.
 Print Assumptions C11_get_ast2_eq_bounded.
 
+(* UNBOUNDED: the normal form of normalize2 (the eight rewriting steps as given in
+   Regex.v) on the whole layout family: whatever the blanks, the spelling of the
+   numbers and the '+' signs, normalize2 (render ws trail) is the concatenation
+   of the token texts ('#n' as '^(n)', '#(' as '_(') with one '*' exactly between
+   a token that ends an operand (literal, ')', '^(n)') and one that starts an
+   operand (literal, '(', '^(n)', '_(') *)
+Theorem C11_normalize2_normal_form : forall (ws : written) (trail : nat),
+  wf_written ws = true -> ws <> [] -> normalize2 (render ws trail) = normal_form ws.
+Proof. exact normalize2_normal_form. Qed.
+Print Assumptions C11_normalize2_normal_form.
+
+(* the character-level PEG (as given in Regex.v) on the normal form of any writing
+   of any expression returns [psem e]: the PEG against the token automaton, for
+   texts of any length *)
+Theorem C11_peg_normal_form : forall (e : mexpr) (ws : written),
+  wf_written ws = true -> tokens_written ws = toks 0 e -> peg_start (normal_form ws) = psem e.
+Proof. exact peg_normal_form. Qed.
+Print Assumptions C11_peg_normal_form.
+
+(* UNBOUNDED equality of the two models on the whole layout family: every
+   writing of every expression, accepted or rejected, of any length *)
+Theorem C11_get_ast2_eq_written : forall (e : mexpr) (ws : written) (trail : nat),
+  wf_written ws = true -> tokens_written ws = toks 0 e ->
+  get_ast2 (render ws trail) = get_ast (render ws trail).
+Proof. exact get_ast2_eq_written. Qed.
+Print Assumptions C11_get_ast2_eq_written.
+
+(* ... hence for EVERY string: whatever the lexer + automaton model accepts, the
+   code-shaped model accepts with the same tree (C11_get_ast_sound puts every
+   accepted string in the layout family) *)
+Theorem C11_get_ast2_eq_accepted : forall (s : String.string) (a : ast),
+  get_ast s = Ok a -> get_ast2 s = Ok a.
+Proof. exact get_ast2_eq_accepted. Qed.
+Print Assumptions C11_get_ast2_eq_accepted.
+
+(* PARTIAL towards "get_ast2 s = get_ast s for all strings s": what is still
+   missing is the rejected side outside the layout family, i.e. that get_ast2
+   accepts nothing that is not a writing of an expression (soundness of the
+   character-level PEG + rewriting steps on arbitrary strings) and raises the same
+   exception there.  Covered by the bounded theorems (length <= 6) and the thorough
+   tier's computation.  Proved: on a writing, get_ast2 only depends on the normal
+   form (layout invariance of the code-shaped model itself). *)
+Theorem C11_get_ast2_layout_partial : forall (ws ws' : written) (trail trail' : nat),
+  wf_written ws = true -> wf_written ws' = true -> ws <> [] ->
+  map (fun p => watom (snd p)) ws = map (fun p => watom (snd p)) ws' ->
+  get_ast2 (render ws trail) = peg_start (normal_form ws) /\
+  get_ast2 (render ws trail) = get_ast2 (render ws' trail').
+Proof.
+  intros ws ws' trail trail' Hw Hw' Hne E. split.
+  - now apply get_ast2_normal_form.
+  - now apply get_ast2_layout_invariant.
+Qed.
+Print Assumptions C11_get_ast2_layout_partial.
+
+(* ... and on every string of length <= 6 (1 111 111 strings: ten shards by first
+   character, each by computation, combined in RegexBound6.v) *)
+Theorem C11_get_ast2_eq_bounded6 : forall s : String.string, (String.length s <= 6)%nat ->
+  (forall c, In c (String.list_ascii_of_string s) -> In c Exec.alpha3) -> get_ast2 s = get_ast s.
+Proof. exact RegexBound6.get_ast2_eq_len6. Qed.
+Print Assumptions C11_get_ast2_eq_bounded6.
+
 (* ---- cellcard.split on every cell card ([split_card_full]: three-field
    check, then the LIKE branch = C15's model of re_likebut, else split_card) ---- *)
 Theorem C11_split_full : forall name g1 mat rho g3 E opts,
@@ -414,6 +475,14 @@ Proof.
   - reflexivity.
   - vm_compute. reflexivity.
 Qed.
+
+(* the normal form of the layout of C11_example_layout *)
+Example C11_example_normal_form :
+  let ws := [(2, WHashP 2); (0, WLit false true "01" None); (0, WColon); (0, WLit true false "2" (Some "3"%char));
+             (0, WRP); (0, WHashN 0 "005"); (2, WColon); (0, WLit false false "4" None)]%string in
+  wf_written ws = true /\ normal_form ws = "_(+01:-2.3)*^(005):4"%string /\
+  normalize2 (render ws 1) = normal_form ws.
+Proof. cbv zeta. repeat split; vm_compute; reflexivity. Qed.
 
 (* non-vacuity of the end-to-end theorem: cells 1 = "-1 2", 2 = "#1 : 3",
    and the expression "#2 #1" *)
